@@ -21,7 +21,7 @@ func init() {
 		ID:        "C07",
 		Level:     "model_checking",
 		Technique: "bounded exhaustive enumeration of row-kind words (the comma/separator state machine), skipable assignments, item kinds and header configurations, each rendered by the real code and decoded by an order/duplicate-preserving JSON reader",
-		Rule: "family row-words: every word over {object row, separator, zero-cell row, short row} of length <=5 (thorough <=8), i.e. every path through the comma state machine; " +
+		Rule: "family row-words: every word over {object row, separator, zero-cell row, short row} of length <=7 (thorough <=8), i.e. every path through the comma state machine; " +
 			"family skipable: every assignment of {unset,true,false,non-bool} to column 0 and 2 columns x every pair of cells from {nil, empty string, x, 0, nested empty cell}; " +
 			"family items: 16 item kinds (scalars, slices, maps, structs with/without exported fields, Marshaler, TextMarshaler, nested cell, unencodable chan) x position; " +
 			"family headers: every pair/triple of header texts from a 9-pool incl. duplicate and empty, x missing/too-few/enough/wider; non-trivial = word contains a separator or anomalous row, a skipable or non-default setting, a non-string item, or a refused configuration",
@@ -302,7 +302,7 @@ func mapKeys(m map[string]interface{}) []string {
 
 func runC07(x *X) {
 	// (a) row-kind words
-	maxw := x.Pick(5, 8)
+	maxw := x.Pick(7, 8)
 	x.Explore("row-words", ExploreOpts{ShardDepth: 2, Bound: fmt.Sprintf("all words over {O,S,Z,P} of length <=%d", maxw)}, func(c *Chooser) {
 		t := &c07Table{hasHeader: true, header: []string{"k1", "k2"}, skip: map[int]interface{}{}}
 		var w strings.Builder
